@@ -108,6 +108,10 @@ CASES = {
         fixed="D17", properties=["C15"],
         tasks=[task("productionTask", [svc("S0", outs=D_OUT), loop("i", ("int", 3), [svc("S1", ins=[ITEM_I("i"), ("var", "d")])])])],
         vals=[val()], order="fifo", mutate="clear"),
+    "D17b-hostile-empty-params": dict(
+        fixed="D17b", properties=["C15"],
+        tasks=[task("productionTask", [loop("i", ("int", 3), [svc("S1", outs=D_OUT)])])],
+        vals=[val()], order="fifo", mutate="append"),
     "D19-parallel-in-called-task": dict(
         fixed="D19", properties=["C03", "C01", "C09"],
         tasks=[task("productionTask", [call("tA"), svc("S9")]),
